@@ -1,6 +1,9 @@
 import PvModel.Props.C05
+import PvModel.Props.C05Rel
 #print axioms Pv.C05_step
 #print axioms Pv.C05_next
 #print axioms Pv.C05_prolog
 #print axioms Pv.C05_disj_order
 #print axioms Pv.C05_conj_order
+#print axioms Pv.C05_prolog_relations
+#print axioms Pv.C05_member_in_position_order
